@@ -56,8 +56,21 @@ package evmlane
 //@   at call types.EventManagerI.EmitEvent@1 assert[C13.ante_event_tx_index] arg1.Attributes[1].Value == strconv.FormatUint(max(1, trCount[layer(ctx)]) - 1, 10)
 //@   at call types.EventManagerI.EmitEvent@1 assert[C13.ante_event_tx_hash] arg1.Attributes[0].Value == decHash({B}).Hex()
 
-// 993e (ELExecWithoutErrorDecorator) is NOT under contract here: `&ed.ek` (an interior pointer) is converted to the EvmKeeper
-// interface for NewStateDB, which the verifier's memory model does not support, and the trial execution needs the state
-// transition preconditions of x/evm/keeper (C08 territory). Its lane guard is the same two lines as in the decorators above.
+// 993e: the trial execution runs only for an Ethereum-lane tx in CheckTx / ReCheckTx / simulation; in every other case the
+// decorator goes straight to the continuation and touches nothing. The trial itself runs on a CacheContext branch whose write
+// function is dropped: when the continuation is called, every layered component of the world seen through ctx (balances, supply,
+// accounts, x/evm and fee-market params, per-block bookkeeping, flags: prelude/40_statedb_context.spec) and ctx's event list are what
+// they were on entry (C08: the trial execution is side-effect free).
+// requires: the stored fee-market params are valid (x/feemarket SetParams: base fee present), as for the fee checkers.
+//@ func (ed ELExecWithoutErrorDecorator) AnteHandle{SIG}
+//@   requires !fmBaseFeeNil[layer(ctx)]
+//@   modifies everything
+//@   ensures[C07.cosmos_passes,C08.cosmos_passes] !{S} ==> ({NEXTC()})
+//@   ensures[C07.deliver_passes,C08.deliver_passes] (!ctx.IsCheckTx() && !ctx.IsReCheckTx() && !simulate) ==> ({NEXTC()})
+//@   ensures[C08.trial_next_or_reject] (({NEXTC(None)} && hcCtx[{K}] == ctx) || ({REJ}))
+//@   at call dyncall@1 assert[C08.view_unchanged_at_next] viewEqOld(layer(ctx), layer(ctx))
+//@   at call dyncall@2 assert[C08.view_unchanged_at_next] viewEqOld(layer(ctx), layer(ctx))
+//@   at call dyncall@3 assert[C08.view_unchanged_at_next_after_trial] viewEqOld(layer(ctx), layer(ctx)) && evlog[payload(ctx.EventManager())] == old(evlog[payload(ctx.EventManager())])
+//@   ensures[C08.trial_world_unchanged] hcN[0] == {K} + 1 ==> ({NOEFF} && hcSawTrCount[{K}] == old(trCount[layer(ctx)]) && hcSawTrGas[{K}] == old(trGas[layer(ctx)]) && hcSawHasReceipt[{K}] == old(trHasReceipt[layer(ctx)]))
 '''
 open('/tmp/w/ante/repo/app/antedl/evmlane/verif_contracts.go','w').write(out)
